@@ -676,6 +676,12 @@ func normalizePath(dst, src []byte) []byte {
 		b = b[:len(b)-nn+n]
 	}
 
+	// remove trailing /. (RFC 3986 remove_dot_segments: a final "." segment
+	// is dropped and the path keeps its trailing slash)
+	if n := len(b); n >= 2 && b[n-2] == '/' && b[n-1] == '.' {
+		b = b[:n-1]
+	}
+
 	// remove /foo/../ parts
 	for {
 		n := bytes.Index(b, strSlashDotDotSlash)
